@@ -798,3 +798,312 @@ Proof.
   rewrite (ltb_val _ _ Fc Fa), Va. apply Rlt_bool_true. lra.
 Qed.
 Close Scope R_scope.
+
+(* ===================================================================================================================== *)
+(* 8. the KIND of the error                                                                                               *)
+(* ===================================================================================================================== *)
+(* common/errors: a spatialIdError carries one of four codes; every other error value of the library (fmt.Errorf in the detector,
+   in GetNspatialIdsAroundVoxcels, in the clearance fit; a spatialIdError wrapped by fmt.Errorf("%w ...")) is observed as `plain`.
+   Each kind_<fn> follows the ORDER of the checks of the Go function: Some k = the call fails and the first failing check produces
+   an error of kind k; None = the call succeeds. kind_<fn>_flag ties it to the owner's model (same error flag), <fn>_kind says which
+   kind a documented exclusion produces. *)
+From Coq Require Import Ascii.
+Inductive ecode := KInputValue | KOptionFailed | KValueConvert | KOther | KPlain.
+Definition ecode_name (k : ecode) : string :=
+  match k with
+  | KInputValue => "InputValueError" | KOptionFailed => "OptionFailedError" | KValueConvert => "ValueConvertError"
+  | KOther => "OtherError" | KPlain => "plain"
+  end%string.
+Definition if_err (b : bool) (k : ecode) : option ecode := if b then Some k else None.
+Lemma if_err_some b k : is_some (if_err b k) = b.
+Proof. now destruct b. Qed.
+
+(* ---- errors.NewSpatialIdError(code, detail).Error(): the message is chosen by a switch on the code (default: the message of
+        OtherError, whatever the code string is), the text is "code,message" or "code,message,detail" when the detail is not empty ---- *)
+Definition error_message (code : string) : string :=
+  if String.eqb code "InputValueError" then "入力チェックエラー"
+  else if String.eqb code "OptionFailedError" then "オプション値の指定エラー"
+  else if String.eqb code "ValueConvertError" then "値の変換エラー"
+  else "その他例外が発生".
+Definition error_text (code detail : string) : string :=
+  match detail with
+  | EmptyString => code ++ "," ++ error_message code
+  | _ => code ++ "," ++ error_message code ++ "," ++ detail
+  end%string.
+(* what the harness reads as the kind of a spatialIdError: the part of Error() before the first comma *)
+Fixpoint before_comma (s : string) : string :=
+  match s with
+  | EmptyString => EmptyString
+  | String c r => if Ascii.eqb c ","%char then EmptyString else String c (before_comma r)
+  end.
+Fixpoint nocomma (s : string) : bool :=
+  match s with EmptyString => true | String c r => negb (Ascii.eqb c ","%char) && nocomma r end.
+Lemma before_comma_app a r : nocomma a = true -> before_comma (a ++ String ","%char r) = a.
+Proof.
+  induction a as [|c a IH]; cbn; [reflexivity|]. destruct (Ascii.eqb c ","%char); cbn; [discriminate|]. intros H. now rewrite IH.
+Qed.
+Theorem error_text_code code detail : nocomma code = true -> before_comma (error_text code detail) = code.
+Proof. intros H. unfold error_text. destruct detail; cbn [append]; now apply before_comma_app. Qed.
+Theorem error_text_of_kind k detail : k <> KPlain -> before_comma (error_text (ecode_name k) detail) = ecode_name k.
+Proof. intros _. apply error_text_code. now destruct k. Qed.
+Example error_text_examples :
+  error_text "InputValueError" "" = "InputValueError,入力チェックエラー"%string /\
+  error_text "InputValueError" "spatialId: x" = "InputValueError,入力チェックエラー,spatialId: x"%string /\
+  error_text "OptionFailedError" "" = "OptionFailedError,オプション値の指定エラー"%string /\
+  error_text "ValueConvertError" "d,e" = "ValueConvertError,値の変換エラー,d,e"%string /\
+  error_text "OtherError" "" = "OtherError,その他例外が発生"%string /\ error_text "Foo" "z" = "Foo,その他例外が発生,z"%string.
+Proof. repeat split; reflexivity. Qed.
+
+(* ---- common/object: every refusal is an InputValueError ---- *)
+Definition kind_new_point (lon lat : PrimFloat.float) : option ecode := if_err (invalid_new_point lon lat) KInputValue.
+Definition kind_set_lon (lon : PrimFloat.float) : option ecode := if_err (invalid_set_lon lon) KInputValue.
+Definition kind_set_lat (lat : PrimFloat.float) : option ecode := if_err (invalid_set_lat lat) KInputValue.
+Definition kind_new_eid (s : string) : option ecode := if_err (invalid_new_eid s) KInputValue.
+Definition kind_new_tile (h v : Z) : option ecode := if_err (invalid_new_tile h v) KInputValue.
+Definition kind_tile_set (z : Z) : option ecode := if_err (zoom_bad z) KInputValue.
+Theorem kind_new_point_flag lon lat alt : is_some (kind_new_point lon lat) = snd (new_point lon lat alt).
+Proof. unfold kind_new_point. now rewrite if_err_some, new_point_flag. Qed.
+Theorem kind_new_eid_flag s : is_some (kind_new_eid s) = negb (is_ok (new_eid s)).
+Proof. unfold kind_new_eid. now rewrite if_err_some, new_eid_flag, negb_involutive. Qed.
+Theorem kind_new_tile_flag h x y v z : is_some (kind_new_tile h v) = negb (is_ok (new_tile h x y v z)).
+Proof. unfold kind_new_tile. now rewrite if_err_some, new_tile_flag, negb_involutive. Qed.
+Theorem object_kind :
+  (forall lon lat, invalid_new_point lon lat = true -> kind_new_point lon lat = Some KInputValue) /\
+  (forall lon, invalid_set_lon lon = true -> kind_set_lon lon = Some KInputValue) /\
+  (forall lat, invalid_set_lat lat = true -> kind_set_lat lat = Some KInputValue) /\
+  (forall s, invalid_new_eid s = true -> kind_new_eid s = Some KInputValue) /\
+  (forall h v, invalid_new_tile h v = true -> kind_new_tile h v = Some KInputValue) /\
+  (forall z, zoom_bad z = true -> kind_tile_set z = Some KInputValue).
+Proof.
+  unfold kind_new_point, kind_set_lon, kind_set_lat, kind_new_eid, kind_new_tile, kind_tile_set.
+  repeat split; intros; match goal with H : _ = true |- _ => now rewrite H end.
+Qed.
+
+(* ---- shape ---- *)
+Definition kind_points (has_nil : bool) (h v : Z) : option ecode := if_err (invalid_points has_nil h v) KInputValue.
+(* vertices: parse (InputValueError), zoom fields (InputValueError), then the option (OptionFailedError) *)
+Definition kind_point_on_eid (id : string) (opt : Z) : option ecode :=
+  match parse_eid id with
+  | None => Some KInputValue
+  | Some i => if zoom_bad (eh i) || zoom_bad (ev i) then Some KInputValue
+              else if negb (option_known opt) then Some KOptionFailed else None
+  end.
+Definition kind_point_on_sid (id : string) (opt : Z) : option ecode :=
+  match sid_to_eid_str id with None => Some KInputValue | Some e => kind_point_on_eid e opt end.
+Definition kind_s2e (l : list string) : option ecode := if_err (invalid_s2e l) KInputValue.
+Definition kind_e2s (l : list string) : option ecode := if_err (invalid_e2s l) KInputValue.
+Definition kind_project (crs : Z) : option ecode := if_err (invalid_project crs) KValueConvert.
+Theorem kind_points_flag m_tan m_cos m_log has_nil l h v : points_eids m_tan m_cos m_log l h v <> None ->
+  is_some (kind_points has_nil h v) = negb (is_ok (points_api m_tan m_cos m_log has_nil l h v)).
+Proof. intros N. unfold kind_points. now rewrite if_err_some, (points_flag m_tan m_cos m_log has_nil l h v N), negb_involutive. Qed.
+Theorem points_kind has_nil h v : invalid_points has_nil h v = true -> kind_points has_nil h v = Some KInputValue.
+Proof. unfold kind_points. now intros ->. Qed.
+Theorem kind_point_on_eid_flag id opt : is_some (kind_point_on_eid id opt) = invalid_point_on_eid id opt.
+Proof.
+  unfold kind_point_on_eid, invalid_point_on_eid. destruct (parse_eid id) as [i|]; [|reflexivity].
+  destruct (zoom_bad (eh i) || zoom_bad (ev i)); [reflexivity|]. now destruct (option_known opt).
+Qed.
+Theorem kind_point_on_eid_model m_sinh m_atan id opt :
+  is_some (kind_point_on_eid id opt) = negb (is_ok (point_on_eid_api m_sinh m_atan id opt)).
+Proof. now rewrite kind_point_on_eid_flag, point_on_eid_flag, negb_involutive. Qed.
+Theorem kind_point_on_sid_flag id opt : is_some (kind_point_on_sid id opt) = invalid_point_on_sid id opt.
+Proof. unfold kind_point_on_sid, invalid_point_on_sid. destruct (sid_to_eid_str id); [apply kind_point_on_eid_flag|reflexivity]. Qed.
+(* a malformed ID or a zoom field out of range gives InputValueError even when the option is unknown too; an unknown option alone
+   gives OptionFailedError *)
+Theorem point_on_eid_kind_input id opt : invalid_point_on_eid id 0 = true -> kind_point_on_eid id opt = Some KInputValue.
+Proof.
+  unfold kind_point_on_eid, invalid_point_on_eid. destruct (parse_eid id) as [i|]; [|reflexivity].
+  cbn [option_known Z.eqb orb negb]. rewrite orb_false_r. now intros ->.
+Qed.
+Theorem point_on_eid_kind_option id opt : invalid_point_on_eid id 0 = false -> option_known opt = false ->
+  kind_point_on_eid id opt = Some KOptionFailed.
+Proof.
+  unfold kind_point_on_eid, invalid_point_on_eid. destruct (parse_eid id) as [i|]; [|discriminate].
+  cbn [option_known Z.eqb orb negb]. rewrite orb_false_r. now intros -> ->.
+Qed.
+Theorem notation_kind :
+  (forall l, invalid_s2e l = true -> kind_s2e l = Some KInputValue) /\ (forall l, invalid_e2s l = true -> kind_e2s l = Some KInputValue) /\
+  (forall crs, invalid_project crs = true -> kind_project crs = Some KValueConvert).
+Proof. unfold kind_s2e, kind_e2s, kind_project. repeat split; intros; match goal with H : _ = true |- _ => now rewrite H end. Qed.
+
+(* ---- integrate: zoom check and member parsing both give InputValueError ---- *)
+Definition kind_change_ext (ids : list string) (H V : Z) : option ecode := if_err (invalid_change_ext ids H V) KInputValue.
+Definition kind_change_sid (sids : list string) (z : Z) : option ecode := if_err (invalid_change_sid sids z) KInputValue.
+Theorem kind_change_ext_flag ids H V : is_some (kind_change_ext ids H V) = negb (is_ok (change_ext_api ids H V)).
+Proof. unfold kind_change_ext. now rewrite if_err_some, change_ext_flag, negb_involutive. Qed.
+Theorem kind_merge_ext_flag ids H V : is_some (kind_change_ext ids H V) = negb (is_ok (merge_ext_api ids H V)).
+Proof. unfold kind_change_ext. now rewrite if_err_some, merge_ext_flag, negb_involutive. Qed.
+Theorem kind_change_sid_flag sids z : is_some (kind_change_sid sids z) = negb (is_ok (change_sid_api sids z)).
+Proof. unfold kind_change_sid. now rewrite if_err_some, change_sid_flag, negb_involutive. Qed.
+Theorem kind_merge_sid_flag sids z : is_some (kind_change_sid sids z) = negb (is_ok (merge_sid_api sids z)).
+Proof. unfold kind_change_sid. now rewrite if_err_some, merge_sid_flag, negb_involutive. Qed.
+Theorem integrate_kind :
+  (forall ids H V, invalid_change_ext ids H V = true -> kind_change_ext ids H V = Some KInputValue) /\
+  (forall sids z, invalid_change_sid sids z = true -> kind_change_sid sids z = Some KInputValue).
+Proof. unfold kind_change_ext, kind_change_sid. split; intros; match goal with H : _ = true |- _ => now rewrite H end. Qed.
+
+(* ---- operated: the layer counts are checked first (fmt.Errorf: plain), then every member (NewExtendedSpatialID: InputValueError) ---- *)
+Definition kind_nN (ids : list string) (H V : Z) : option ecode :=
+  if (H <? 0) || (V <? 0) then Some KPlain else if some_bad wf5 ids then Some KInputValue else None.
+Theorem kind_nN_flag ids H V : is_some (kind_nN ids H V) = negb (is_ok (nN_api ids H V)).
+Proof.
+  rewrite nN_flag, negb_involutive. unfold kind_nN, invalid_nN. destruct ((H <? 0) || (V <? 0)); [reflexivity|].
+  cbn [orb]. now destruct (some_bad wf5 ids).
+Qed.
+Theorem nN_kind_negative ids H V : (H <? 0) || (V <? 0) = true -> kind_nN ids H V = Some KPlain.
+Proof. unfold kind_nN. now intros ->. Qed.
+Theorem nN_kind_malformed ids H V : (H <? 0) || (V <? 0) = false -> some_bad wf5 ids = true -> kind_nN ids H V = Some KInputValue.
+Proof. unfold kind_nN. now intros -> ->. Qed.
+
+(* ---- detector ---- *)
+(* extended pair: the field counts first (fmt.Errorf: plain); every other refusal comes out of ChangeExtendedSpatialIdsZoom unchanged
+   (InputValueError) *)
+Definition kind_ext_overlap (a b : string) : option ecode :=
+  if negb (ar5 a) || negb (ar5 b) then Some KPlain else if is_ok (ext_overlap a b) then None else Some KInputValue.
+Lemma ext_overlap_arity a b : negb (ar5 a) || negb (ar5 b) = true -> ext_overlap a b = Err.
+Proof. unfold ext_overlap, ar5. now intros ->. Qed.
+Theorem kind_ext_overlap_flag a b : is_some (kind_ext_overlap a b) = negb (is_ok (ext_overlap a b)).
+Proof.
+  unfold kind_ext_overlap. destruct (negb (ar5 a) || negb (ar5 b)) eqn:E; [now rewrite (ext_overlap_arity a b E)|].
+  now destruct (ext_overlap a b).
+Qed.
+Theorem ext_overlap_kind_arity a b : negb (ar5 a) || negb (ar5 b) = true -> kind_ext_overlap a b = Some KPlain.
+Proof. unfold kind_ext_overlap. now intros ->. Qed.
+Theorem ext_overlap_kind_field a b : ar5 a = true -> ar5 b = true -> invalid_ext_overlap a b = true ->
+  kind_ext_overlap a b = Some KInputValue.
+Proof. intros A B H. unfold kind_ext_overlap. rewrite A, B. cbn. now rewrite (ext_overlap_rejects a b H). Qed.
+(* extended arrays: the kind of the first failing pair in the order of the two loops *)
+Fixpoint kind_ext_inner (a : string) (l2 : list string) : option ecode :=
+  match l2 with
+  | [] => None
+  | b :: r => match ext_overlap a b with
+              | Err => kind_ext_overlap a b
+              | Ok true => None
+              | Ok false => kind_ext_inner a r
+              end
+  end.
+Fixpoint kind_ext_array (l1 l2 : list string) : option ecode :=
+  match l1 with
+  | [] => None
+  | a :: r => match ext_inner a l2 with
+              | Err => kind_ext_inner a l2
+              | Ok true => None
+              | Ok false => kind_ext_array r l2
+              end
+  end.
+Lemma kind_ext_inner_flag a l2 : is_some (kind_ext_inner a l2) = negb (is_ok (ext_inner a l2)).
+Proof.
+  induction l2 as [|b r IH]; cbn [kind_ext_inner ext_inner]; [reflexivity|].
+  destruct (ext_overlap a b) as [[|]|] eqn:E; [reflexivity|exact IH|]. now rewrite kind_ext_overlap_flag, E.
+Qed.
+Theorem kind_ext_array_flag l1 l2 : is_some (kind_ext_array l1 l2) = negb (is_ok (ext_array l1 l2)).
+Proof.
+  induction l1 as [|a r IH]; cbn [kind_ext_array ext_array]; [reflexivity|].
+  destruct (ext_inner a l2) as [[|]|] eqn:E; [reflexivity|exact IH|]. now rewrite kind_ext_inner_flag, E.
+Qed.
+(* spatial forms: the parser's InputValueError is wrapped by fmt.Errorf("%w @spatialId..."), the altitude conversion's likewise:
+   every refusal is observed as plain *)
+Definition kind_sp_array (l1 l2 : list string) : option ecode := if is_ok (sp_array l1 l2) then None else Some KPlain.
+Definition kind_sp_overlap (a b : string) : option ecode := kind_sp_array [a] [b].
+Theorem kind_sp_array_flag l1 l2 : is_some (kind_sp_array l1 l2) = negb (is_ok (sp_array l1 l2)).
+Proof. unfold kind_sp_array. now destruct (sp_array l1 l2). Qed.
+Theorem sp_kind :
+  (forall a b, invalid_sp_overlap a b = true -> kind_sp_overlap a b = Some KPlain) /\
+  (forall l1 l2, invalid_sp_array l1 l2 = true -> kind_sp_array l1 l2 = Some KPlain).
+Proof.
+  split.
+  - intros a b H. unfold kind_sp_overlap, kind_sp_array. change (sp_array [a] [b]) with (sp_overlap a b). now rewrite (sp_overlap_rejects a b H).
+  - intros l1 l2 H. unfold kind_sp_array. now rewrite (sp_array_rejects l1 l2 H).
+Qed.
+Lemma kind_ext_overlap_two a b k : kind_ext_overlap a b = Some k -> k = KPlain \/ k = KInputValue.
+Proof.
+  unfold kind_ext_overlap. destruct (negb (ar5 a) || negb (ar5 b)); [intros [= <-]; now left|].
+  destruct (is_ok (ext_overlap a b)); [discriminate|intros [= <-]; now right].
+Qed.
+Lemma kind_ext_inner_two a l2 k : kind_ext_inner a l2 = Some k -> k = KPlain \/ k = KInputValue.
+Proof.
+  induction l2 as [|b t IH]; cbn [kind_ext_inner]; [discriminate|].
+  destruct (ext_overlap a b) as [[|]|]; [discriminate|exact IH|apply kind_ext_overlap_two].
+Qed.
+Lemma kind_ext_array_two l1 l2 k : kind_ext_array l1 l2 = Some k -> k = KPlain \/ k = KInputValue.
+Proof.
+  induction l1 as [|a r IH]; cbn [kind_ext_array]; [discriminate|].
+  destruct (ext_inner a l2) as [[|]|]; [discriminate|exact IH|apply kind_ext_inner_two].
+Qed.
+Theorem ext_array_kind_some l1 l2 : invalid_ext_array l1 l2 = true -> exists k, kind_ext_array l1 l2 = Some k /\ (k = KPlain \/ k = KInputValue).
+Proof.
+  intros H. pose proof (kind_ext_array_flag l1 l2) as F. rewrite (ext_array_rejects l1 l2 H) in F. cbn in F.
+  destruct (kind_ext_array l1 l2) as [k|] eqn:E; [|discriminate]. exists k. split; [reflexivity|]. eapply kind_ext_array_two, E.
+Qed.
+
+(* ---- transform: key, tile and altitude-key conversions refuse with InputValueError only ---- *)
+Definition kind_e2q (index : bool) (ids : list string) (oh ov : Z) : option ecode := if_err (err_e2q index ids oh ov) KInputValue.
+Definition kind_s2q (index : bool) (sids : list string) (oh ov : Z) : option ecode := if_err (err_s2q index sids oh ov) KInputValue.
+Definition kind_e2qa (ids : list string) (oq oa E O : Z) : option ecode := if_err (err_e2qa ids oq oa E O) KInputValue.
+Definition kind_q2e (items : list qitem) (oh ov : Z) : option ecode := if_err (err_q2e items oh ov) KInputValue.
+Definition kind_tiles (l : list tile) (E O outV : Z) : option ecode := if_err (err_tiles l E O outV) KInputValue.
+Definition kind_z2key (f z out E O : Z) : option ecode := if_err (negb (is_ok (z2key f z out E O))) KInputValue.
+Definition kind_key2z (k kz out E O : Z) : option ecode := if_err (negb (is_ok (key2z k kz out E O))) KInputValue.
+Theorem kind_conversions_flag :
+  (forall (par : PrimFloat.float * PrimFloat.float) index ids oh ov, is_some (kind_e2q index ids oh ov) = negb (is_ok (e2q par index ids oh ov))) /\
+  (forall (par : PrimFloat.float * PrimFloat.float) index sids oh ov, is_some (kind_s2q index sids oh ov) = negb (is_ok (s2q par index sids oh ov))) /\
+  (forall ids oq oa E O, is_some (kind_e2qa ids oq oa E O) = negb (is_ok (e2qa ids oq oa E O))) /\
+  (forall items oh ov, is_some (kind_q2e items oh ov) = negb (is_ok (q2e items oh ov))) /\
+  (forall items z, is_some (kind_q2e items z z) = negb (is_ok (q2s items z))).
+Proof.
+  unfold kind_e2q, kind_s2q, kind_e2qa, kind_q2e. repeat split; intros; rewrite if_err_some.
+  - now rewrite e2q_flag, negb_involutive.
+  - now rewrite s2q_flag, negb_involutive.
+  - now rewrite e2qa_flag, negb_involutive.
+  - now rewrite q2e_flag, negb_involutive.
+  - now rewrite q2s_flag, negb_involutive.
+Qed.
+Theorem conversions_kind :
+  (forall index ids oh ov, invalid_e2q index ids oh ov = true -> kind_e2q index ids oh ov = Some KInputValue) /\
+  (forall index sids oh ov, invalid_s2q index sids oh ov = true -> kind_s2q index sids oh ov = Some KInputValue) /\
+  (forall ids oq oa E O, invalid_e2qa ids oq oa = true -> kind_e2qa ids oq oa E O = Some KInputValue) /\
+  (forall items oh ov, invalid_q2e items oh ov = true -> kind_q2e items oh ov = Some KInputValue) /\
+  (forall l E O outV, invalid_tiles outV = true -> kind_tiles l E O outV = Some KInputValue) /\
+  (forall f z out E O, invalid_altkey z out = true -> kind_z2key f z out E O = Some KInputValue) /\
+  (forall k kz out E O, invalid_altkey kz out = true -> kind_key2z k kz out E O = Some KInputValue).
+Proof.
+  unfold kind_e2q, kind_s2q, kind_e2qa, kind_q2e, kind_tiles, kind_z2key, kind_key2z. repeat split; intros.
+  - now rewrite (e2q_invalid_err _ _ _ _ H).
+  - pose proof (s2q_flag (0%float, 0%float) index sids oh ov) as F. rewrite (s2q_rejects (0%float, 0%float) index sids oh ov H) in F.
+    cbn in F. symmetry in F. apply negb_false_iff in F. now rewrite F.
+  - pose proof (e2qa_flag ids oq oa E O) as F. rewrite (e2qa_rejects ids oq oa E O H) in F. cbn in F. symmetry in F. apply negb_false_iff in F. now rewrite F.
+  - now rewrite (q2e_invalid_err _ _ _ H).
+  - now rewrite (tiles_rejects l E O outV H).
+  - now rewrite (z2key_rejects f z out E O H).
+  - now rewrite (key2z_rejects k kz out E O H).
+Qed.
+(* ---- the clearance fit: clearance (fmt.Errorf: plain), field count (fmt.Errorf: plain), then the vertices of the ID
+        (GetPointOnExtendedSpatialId's InputValueError, returned unchanged) ---- *)
+Definition kind_fit (id : string) (c : PrimFloat.float) : option ecode :=
+  if (c <? 0)%float then Some KPlain else if negb (ar5 id) then Some KPlain else if negb (vertex_ok id) then Some KInputValue else None.
+Lemma vertex_ok_ar5 id : vertex_ok id = true -> ar5 id = true.
+Proof. unfold vertex_ok. intros H. apply wf5_ar5. unfold wf5. now destruct (parse_eid id). Qed.
+Theorem kind_fit_flag id c : is_some (kind_fit id c) = invalid_fit id c.
+Proof.
+  unfold kind_fit, invalid_fit. destruct (c <? 0)%float; [reflexivity|]. cbn [orb].
+  destruct (ar5 id) eqn:A; cbn [negb]; [now destruct (vertex_ok id)|].
+  destruct (vertex_ok id) eqn:V; [|reflexivity]. apply vertex_ok_ar5 in V. congruence.
+Qed.
+Theorem kind_fit_struct id c : is_some (kind_fit id c) = match fit_struct id c with Some Err => true | _ => false end.
+Proof.
+  rewrite kind_fit_flag. unfold invalid_fit, fit_struct. destruct (c <? 0)%float; [reflexivity|]. cbn [orb].
+  destruct (vertex_ok id); cbn [negb]; [|reflexivity]. now destruct (c =? 0)%float.
+Qed.
+Theorem fit_kind_plain id c : (c <? 0)%float || negb (ar5 id) = true -> kind_fit id c = Some KPlain.
+Proof. unfold kind_fit. destruct (c <? 0)%float; [reflexivity|]. cbn [orb]. now intros ->. Qed.
+Theorem fit_kind_input id c : (c <? 0)%float = false -> ar5 id = true -> vertex_ok id = false -> kind_fit id c = Some KInputValue.
+Proof. unfold kind_fit. now intros -> -> ->. Qed.
+(* ---- the corridor: the line first (InputValueError for a nil point or a zoom), then the fit (plain for a negative radius) ---- *)
+Definition kind_corridor (has_nil : bool) (h v : Z) (r : PrimFloat.float) : option ecode :=
+  if invalid_points has_nil h v then Some KInputValue else if (r <? 0)%float then Some KPlain else None.
+Theorem kind_corridor_flag has_nil h v r : is_some (kind_corridor has_nil h v r) = invalid_corridor has_nil h v r.
+Proof. unfold kind_corridor, invalid_corridor. destruct (invalid_points has_nil h v); [reflexivity|]. now destruct (r <? 0)%float. Qed.
+Theorem corridor_kind has_nil h v r :
+  (invalid_points has_nil h v = true -> kind_corridor has_nil h v r = Some KInputValue) /\
+  (invalid_points has_nil h v = false -> (r <? 0)%float = true -> kind_corridor has_nil h v r = Some KPlain).
+Proof. unfold kind_corridor. split; [now intros ->|now intros -> ->]. Qed.
